@@ -1511,6 +1511,8 @@ func libModel(name string, args []any) (any, bool) {
 		return "", false
 	}
 	switch name {
+	case "errors.New", "fmt.Errorf":
+		return iObj{kind: "error"}, true // a non-nil error, whatever it says
 	case "slices.Contains":
 		if len(args) != 2 {
 			return nil, false
